@@ -60,7 +60,7 @@ func (p *Prog) VerifyFunc(fi *FuncInfo, spec *FuncSpec) (res *FuncResult) {
 	vc := &VC{p: p, u: p.u, fi: fi, spec: spec, info: fi.Pkg.TypesInfo, pkg: fi.Pkg.Types,
 		declSeen: map[string]bool{}, heap0: map[string]Term{}, heapSort: map[string]string{}, heapElemT: map[string]types.Type{},
 		counters: map[string]int{}, params: map[string]types.Object{}, paramTerm: map[string]Term{},
-		closures: map[string]*funcVal{}, litResults: map[*ast.FuncLit][]*types.Var{}, usedLoops: map[int]bool{}, usedSpecs: map[string]bool{}, usedAnchors: map[string]bool{}}
+		closures: map[string]*funcVal{}, litResults: map[*ast.FuncLit][]*types.Var{}, usedLoops: map[int]bool{}, usedSpecs: map[string]bool{}, usedAnchors: map[string]bool{}, lazyHeaps: map[string]Term{}}
 	defer func() {
 		if r := recover(); r != nil {
 			if ue, ok := r.(unsupportedErr); ok {
